@@ -5,7 +5,7 @@ From Coq Require Import Extraction ExtrOcamlBasic ExtrOcamlString NArith List St
 From Fsn Require Import KqModel.
 
 Definition kq_cfg_repo := cfg_repo.
-Definition kq_cfg_fixed := cfg_fixed.
+Definition kq_cfg_before_fix := cfg_before_fix.
 Definition kq_st_init := st_init.
 Definition kq_sp_init := sp_init.
 Definition kq_model_obs := model_obs.
@@ -16,4 +16,4 @@ Definition kq_pending (s : st) : nat := List.length (k_pend (K s)).
 Definition kq_errs (s : st) := errs s.
 Definition kq_clean := clean.
 
-Extraction "kqmodel.ml" kq_cfg_repo kq_cfg_fixed kq_st_init kq_sp_init kq_model_obs kq_spec_step kq_tree kq_regs kq_pending kq_errs kq_clean.
+Extraction "kqmodel.ml" kq_cfg_repo kq_cfg_before_fix kq_st_init kq_sp_init kq_model_obs kq_spec_step kq_tree kq_regs kq_pending kq_errs kq_clean.
